@@ -1,0 +1,11 @@
+//go:build verif
+
+package scheduler
+
+import "time"
+
+// VerifSetPause shortens the fixed polling pause of the scheduling loop so that a
+// verification harness can afford thousands of small runs.  The loop itself is untouched.
+func (sc *Scheduler) VerifSetPause(d time.Duration) {
+	sc.pause = d
+}
